@@ -25,7 +25,8 @@ RULE = (
     "functools-style positional, cache), binding (function, method on two instances, classmethod, "
     "staticmethod) and a history of <=40 ops over {call(pattern), cache_clear, cache_info, cache_parameters, "
     "cache_discard(pattern)}; patterns mix 1/1.0/True/'1'/(1,)/None/2/2.0, positional vs keyword and keyword "
-    "order; failing calls are injected; the wrapped coroutine suspends 0..2 times. After every op: result, "
+    "order, positional tuples that look like keyword items; results are fresh tuples or None / falsy values; "
+    "method holders may be falsy objects; failing calls are injected; the wrapped coroutine suspends 0..2 times. After every op: result, "
     "invocation log, cache_info and cache_parameters equal those of functools.lru_cache (until the first "
     "discard) and of the LRU model (always). Non-trivial: >=1 hit and (>=1 eviction or discard or typed or "
     "failing call); distinct = distinct (configuration, history) by 64-bit hash."
@@ -90,7 +91,7 @@ def gen(ch):
     npat = ch.between(1, 5)
     pats = []
     for _ in range(npat):
-        shape = ch.draw(6)
+        shape = ch.draw(8)
         a, b = pool[ch.draw(nvals)], pool[ch.draw(nvals)]
         if shape == 0:
             pats.append(((a,), ()))
@@ -102,9 +103,16 @@ def gen(ch):
             pats.append(((), (("a", a), ("b", b))))
         elif shape == 4:
             pats.append(((), (("b", b), ("a", a))))
-        else:
+        elif shape == 5:
             pats.append(((a,), (("b", b),)))
+        elif shape == 6:
+            # a positional argument that looks like a keyword item
+            pats.append(((("a", a),), ()))
+        else:
+            pats.append(((("a", a), ("b", b)), ()))
     sc.pats = pats
+    sc.result_mode = ch.weighted([4, 1, 2])  # results: always a fresh tuple, always None, None / falsy every other time
+    sc.falsy_inst = ch.chance(1, 3)
     ops = []
     discards = ch.chance(1, 3)  # most histories stay comparable with functools to the end
     for _ in range(ch.between(1, 40)):
@@ -144,6 +152,7 @@ class Side:
         self.serial = 0
         self.invocations = []
         self.fail_next = False
+        self.result_mode = 0
 
     def body(self, args, kwargs):
         self.serial += 1
@@ -151,11 +160,14 @@ class Side:
         if self.fail_next:
             self.fail_next = False
             raise InjectedFault("call%d" % self.serial)
+        if self.result_mode == 1 or (self.result_mode == 2 and self.serial % 2):
+            return (None, 0, "")[self.serial % 3] if self.result_mode == 2 else None
         return ("v", self.serial)
 
 
 def build(sc, sim, ref):
     side = Side()
+    side.result_mode = sc.result_mode
     L = lib()
     typed = sc.typed if sc.form in (1, 2) else False
     if ref:
@@ -186,7 +198,10 @@ def build(sc, sim, ref):
                     await sim.suspend(PAUSE, None, "wrapped")
                 return side.body(args, kwargs)
         if sc.binding == 1:
-            cls = type("Holder", (), {"m": decorate(sc, L, meth, ref)})
+            ns = {"m": decorate(sc, L, meth, ref)}
+            if sc.falsy_inst:
+                ns["__len__"] = lambda self_: 0  # an instance whose truth value is False is an instance all the same
+            cls = type("Holder", (), ns)
             x, y = cls(), cls()
             side.targets = [x.m, y.m]
             side.prefix = [(x,), (y,)]
@@ -302,6 +317,7 @@ def execute(st, ctx):
     msize = 0 if (msize is not None and msize < 0) else msize
     model = Model(msize, aside.typed)
     mside = Side()
+    mside.result_mode = sc.result_mode
     mside.prefix = [tuple("inst%d" % i for _ in p) for i, p in enumerate(aside.prefix)]
     if sc.binding == 2:
         mside.prefix = [("cls",), ("sub",)]
@@ -311,6 +327,7 @@ def execute(st, ctx):
 
     def describe(i=None):
         return {"maxsize": sc.maxsize, "typed": sc.typed, "form": sc.form, "binding": sc.binding,
+                "result_mode": sc.result_mode, "falsy_instances": sc.falsy_inst,
                 "effective": [msize, aside.typed],
                 "patterns": [repr(p) for p in sc.pats],
                 "ops": [(("call", "clear", "info", "params", "discard")[k], p, inst, f) for k, p, inst, f in sc.ops][: (i + 1) if i is not None else None],
@@ -363,7 +380,7 @@ def execute(st, ctx):
     if any(len(kw) == 2 for _, kw in sc.pats):
         out.probes["keyword_order"] = 1
     out.nontrivial = hits >= 1 and (evicted or bool(mside.discards) or aside.typed or "failing_call" in out.probes)
-    out.shape = (sc.maxsize_sel, sc.typed, sc.form, sc.binding, tuple(repr(p) for p in sc.pats), tuple(sc.ops))
+    out.shape = (sc.maxsize_sel, sc.typed, sc.form, sc.binding, sc.result_mode, sc.falsy_inst, tuple(repr(p) for p in sc.pats), tuple(sc.ops))
     if ctx.want_sample:
         out.sample = describe()
     if ctx.want_log:
